@@ -338,6 +338,11 @@ def mkPreds (raw : List RawPred) : List Pred := mkPredsFrom raw Gen.C03.predName
 def scoreOf (ps : List Pred) : Nat :=
   ps.foldl (fun s p => s ||| (1 <<< (p.kind + Gen.C03.weightShiftPlus))) 0
 
+/-- the same fold over the bare positions of the predicates (the shape in which `extract/c03.py` records what
+`PredicateList.make` returned on its probe inputs; `scoreOf ps = scoreOfKinds (ps.map (·.kind))`) -/
+def scoreOfKinds (ks : List Nat) : Nat :=
+  ks.foldl (fun s k => s ||| (1 <<< (k + Gen.C03.weightShiftPlus))) 0
+
 /-- `order = (MAX_ORDER - score) // (len(preds) + 1)` -/
 def orderOfScore (score len : Nat) : Nat := (Gen.C03.maxOrder - score) / (len + Gen.C03.orderDivPlus)
 
@@ -545,9 +550,11 @@ def slotCallables (s : Slot) : List Callable := slotCallablesFrom s Gen.C03.view
 
 /-- `itertools.product(request_iface.__sro__, context_iface.__sro__)` (or the other nesting, if the
 source says so) as `(request iface, context iface)` pairs -/
-def sroPairs (r : Request) : List (Nat × Nat) :=
-  if Gen.C03.requestMajor then r.reqSro.flatMap fun q => r.ctxSro.map fun c => (q, c)
-  else r.ctxSro.flatMap fun c => r.reqSro.map fun q => (q, c)
+def sroPairsOf (reqSro ctxSro : List Nat) : List (Nat × Nat) :=
+  if Gen.C03.requestMajor then reqSro.flatMap fun q => ctxSro.map fun c => (q, c)
+  else ctxSro.flatMap fun c => reqSro.map fun q => (q, c)
+
+def sroPairs (r : Request) : List (Nat × Nat) := sroPairsOf r.reqSro r.ctxSro
 
 /-- `_find_views` (the cache is C15's subject) -/
 def findViews (reg : Registry) (classifier : Nat) (r : Request) : List Callable :=
